@@ -116,17 +116,22 @@ def csNet (b : Bytes) : R Unit := do
   need (n ≤ 31) "channelCount > 31"
   need (r.length = 12 * n) "channelDefArray size ≠ 12 × channelCount"
 
-partial def blocks (b : Bytes) (seen : List Nat) : R Unit :=
-  if b = [] then need (0xC001 ∈ seen) "no core block" else do
-    let (ty, r) ← u16 b "block type"
-    let (len, r) ← u16 r "block length"
-    need (len ≥ 4) "block length < 4"
-    let (body, rest) ← takeN (len - 4) r "block body"
-    need (ty ∉ seen) "duplicate block"
-    need (seen ≠ [] ∨ ty = 0xC001) "core block must come first"
-    (if ty = 0xC001 then csCore body else if ty = 0xC002 then csSecurity body
-     else if ty = 0xC003 then csNet body else .ok ())
-    blocks rest (ty :: seen)
+/-- the sequence of data blocks (`fuel` bounds the number of blocks: each has ≥ 4 bytes) -/
+def blocksF : Nat → Bytes → List Nat → R Unit
+  | 0, _, _ => .error "blocks: fuel"
+  | fuel + 1, b, seen =>
+    if b = [] then need (0xC001 ∈ seen) "no core block" else do
+      let (ty, r) ← u16 b "block type"
+      let (len, r) ← u16 r "block length"
+      need (len ≥ 4) "block length < 4"
+      let (body, rest) ← takeN (len - 4) r "block body"
+      need (ty ∉ seen) "duplicate block"
+      need (seen ≠ [] ∨ ty = 0xC001) "core block must come first"
+      (if ty = 0xC001 then csCore body else if ty = 0xC002 then csSecurity body
+       else if ty = 0xC003 then csNet body else .ok ())
+      blocksF fuel rest (ty :: seen)
+
+def blocks (b : Bytes) (seen : List Nat) : R Unit := blocksF (b.length / 4 + 2) b seen
 
 /-- T.124 ConnectData / ConferenceCreateRequest as used by RDP -/
 def gccCreateRequest (b : Bytes) : R Unit := do
